@@ -1418,6 +1418,126 @@ def probe_population_selection():
     return out
 
 
+# ------------------------------------------------------------------------------------------ negative + frame clauses
+def connection_lists(cls):
+    """names of the member lists of a projection class that hold connection objects (own and inherited)"""
+    out = []
+    for c in cls.__mro__:
+        for m in getattr(c, "member_data_items_", None) or []:
+            if m.get_container() and "Connection" in str(m.get_data_type()) and m.get_name() not in out:
+                out.append(m.get_name())
+    return out
+
+
+def probe_mixed():
+    """the refusal of connections with different synapses / components, enumerated over the connection member lists of the class
+    (from its member specifications) x position of the deviating connection (first / middle / last of its list) x alone /
+    next to the other lists -> {"lists": {kind: [list names]}, "cases": [[kind, list, field, position, across, refused]]}"""
+    n = neuroml
+    res = {"lists": {}, "cases": []}
+    for kind, cls, fields in (("electrical", n.ElectricalProjection, ["synapse"]),
+                              ("continuous", n.ContinuousProjection, ["pre_component", "post_component"])):
+        lists = connection_lists(cls)
+        res["lists"][kind] = lists
+        variant_of = dict((LISTS[v], v) for v in VARIANTS[kind])
+        for l in lists:
+            if l not in variant_of:
+                raise Abort("%s has a connection list %s the probe does not know" % (cls.__name__, l))
+        for li, l in enumerate(lists):
+            for fld in fields:
+                for pos in (0, 1, 2):
+                    for across in (False, True):
+                        proj = cls(id="M", presynaptic_population="a", postsynaptic_population="b")
+                        s = Sent(10)
+                        for lj, l2 in enumerate(lists):
+                            if lj != li and not across:
+                                continue
+                            for q in range(3):
+                                dev = (lj == li and q == pos)
+                                o = make_row(kind, variant_of[l2], s, syn="s2" if dev and fld == "synapse" else "s1",
+                                             pre_comp="a2" if dev and fld == "pre_component" else "a1",
+                                             post_comp="b2" if dev and fld == "post_component" else "b1")
+                                getattr(proj, l2).append(o)
+                        f = MFile()
+                        try:
+                            with contextlib.redirect_stdout(io.StringIO()):
+                                proj.exportHdf5(f, MNode("network"))
+                            refused = False
+                        except Exception:  # noqa: BLE001
+                            refused = True
+                        res["cases"].append([kind, l, fld, pos, across, refused])
+    return res
+
+
+ACCESSORS = ["get_pre_cell_id", "get_post_cell_id", "get_pre_segment_id", "get_post_segment_id", "get_pre_fraction_along",
+             "get_post_fraction_along", "get_pre_info", "get_post_info", "get_target_cell_id", "get_target_population", "get_segment_id",
+             "get_fraction_along", "get_weight", "get_delay_in_ms", "__str__"]
+EDITABLE = {"projection": [("pre_cell_id", "../PRE[77]"), ("post_cell_id", "../POST/78/comp"), ("pre_segment_id", 9), ("post_segment_id", 8),
+                           ("pre_fraction_along", 0.125), ("post_fraction_along", 0.875), ("weight", 6.5), ("delay", "9ms")],
+            "electrical": [("pre_cell", None), ("post_cell", None), ("pre_segment", 9), ("post_segment", 8), ("pre_fraction_along", 0.125),
+                           ("post_fraction_along", 0.875), ("weight", 6.5)],
+            "inputlist": [("target", "../POP/79/comp"), ("segment_id", 9), ("fraction_along", 0.125), ("weight", 6.5)]}
+EDITABLE["continuous"] = EDITABLE["electrical"]
+
+
+def _state(o):
+    return dict((k, repr(v)) for k, v in vars(o).items() if not k.startswith("gds_") and k not in ("parent_object_",))
+
+
+def probe_frame():
+    """frame clause of the accessors and of exportHdf5: (a) calling an accessor / exporting writes nothing on the objects
+    (instance dictionaries identical before and after), (b) after an attribute is edited the accessors and the exported table
+    follow the edit (no value remembered from an earlier call) -> [[class, what, ok]]"""
+    out = []
+    for kind in ("projection", "electrical", "continuous", "inputlist"):
+        for variant in VARIANTS[kind]:
+            o = make_row(kind, variant, Sent(20))
+            for m in ACCESSORS:
+                if not hasattr(o, m) or (m == "get_weight" and not hasattr(o, "weight")):
+                    continue
+                before = _state(o)
+                try:
+                    getattr(o, m)()
+                    out.append([variant, "pure:" + m, _state(o) == before])
+                except Exception:  # noqa: BLE001
+                    out.append([variant, "pure:" + m, _state(o) == before])
+            # exported row follows an edit made after a first export / accessor round
+            cont, _ = make_container(kind, "F")
+            getattr(cont, LISTS[variant]).append(o)
+            first = semrow(kind, o)
+            f = MFile()
+            cont.exportHdf5(f, MNode("network"))
+            str(o)
+            for attr, val in EDITABLE[kind]:
+                if not hasattr(o, attr) or (attr in ("weight", "delay") and getattr(o, attr, None) is None):
+                    continue
+                if val is None:
+                    val = "5" if variant in ("ElectricalConnection", "ContinuousConnection") else "../PRE/5/comp"
+                setattr(o, attr, val)
+            want = semrow(kind, o)
+            f2 = MFile()
+            top = MNode("network")
+            cont.exportHdf5(f2, top)
+            a = [c for c in top.children[0].children if isinstance(c, MArray)][0]
+            cells = set(float(x) for x in a.obj[0])
+            changed = [k for k in want if want[k] != first[k] and not (kind == "projection" and k == "id")]
+            ok = all(float(numpy.float32(want[k])) in cells for k in changed) and bool(changed)
+            out.append([variant, "export-follows-edit", bool(ok)])
+    # exportHdf5 leaves the container and its rows untouched
+    for kind in ("population", "projection", "electrical", "continuous", "inputlist"):
+        cont, _ = make_container(kind, "G")
+        s = Sent(30)
+        rows = []
+        for v in VARIANTS[kind]:
+            o = make_row(kind, v, s)
+            getattr(cont, LISTS[v]).append(o)
+            rows.append(o)
+        before = [_state(o) for o in rows] + [sorted(k for k in vars(cont))]
+        cont.exportHdf5(MFile(), MNode("network"))
+        out.append([type(cont).__name__, "pure:exportHdf5", [_state(o) for o in rows] + [sorted(k for k in vars(cont))] == before])
+    return out
+
+
 # ------------------------------------------------------------------------------------------ Coq rendering
 def cs(s):
     assert all(ord(c) < 128 for c in s)
@@ -1527,11 +1647,17 @@ def render(t):
     L.append("Definition optimized_tables : list otable :=\n  " + cl(["\n   " + x for x in ots]) + ".\n")
     L.append("Definition population_selection : list (bool * string * string * bool * bool) := %s.\n" %
              cl(["(%s, %s, %s, %s, %s)" % (cb(a), cs(b), cs(c), cb(d), cb(e)) for a, b, c, d, e in t["popsel"]]))
+    L.append("Definition connection_lists : list (string * list string) := %s." %
+             cl(["(%s, %s)" % (cs(k), cl([cs(x) for x in v])) for k, v in sorted(t["mixed"]["lists"].items())]))
+    L.append("Definition mixed_cases : list (string * string * string * nat * bool * bool) := %s.\n" %
+             cl(["(%s, %s, %s, %d, %s, %s)" % (cs(a), cs(b), cs(c), d, cb(e), cb(f)) for a, b, c, d, e, f in t["mixed"]["cases"]]))
+    L.append("Definition frame_probe : list (string * string * bool) := %s.\n" %
+             cl(["(%s, %s, %s)" % (cs(a), cs(b), cb(c)) for a, b, c in t["frame"]]))
     L.append("\nDefinition gen : h5gen := {| g_writer := writer_tables; g_reader := reader_tables; g_builder := builder_table;\n"
              "  g_sized_pop_w := sized_population_gattrs; g_sized_pop_r := sized_population_gattrs_r;\n"
              "  g_doc_w := document_gattrs_w; g_doc_r := document_gattrs_r; g_net_w := network_gattrs_w; g_net_r := network_gattrs_r;\n"
              "  g_prop_prefix := property_prefix_ok; g_none_notes := none_notes_read_as; g_absent_temp := absent_temperature_read_as;\n"
-             "  g_builder_strings := builder_strings; g_refusals := refusals; g_delay_units := delay_units;\n  g_select := select_probes; g_zero := zero_cells; g_precision := builder_precision; g_merge := merge_probe; g_strings := string_probe;\n  g_skel := skel; g_opt := optimized_tables; g_popsel := population_selection |}.")
+             "  g_builder_strings := builder_strings; g_refusals := refusals; g_delay_units := delay_units;\n  g_select := select_probes; g_zero := zero_cells; g_precision := builder_precision; g_merge := merge_probe; g_strings := string_probe;\n  g_skel := skel; g_opt := optimized_tables; g_popsel := population_selection;\n  g_conn_lists := connection_lists; g_mixed := mixed_cases; g_frame := frame_probe |}.")
     return "\n".join(L) + "\n"
 
 
@@ -1557,6 +1683,8 @@ def main():
     t["merge"] = probe_merge()
     t["strings"] = probe_strings()
     t["popsel"] = probe_population_selection()
+    t["mixed"] = probe_mixed()
+    t["frame"] = probe_frame()
     t["skeleton"] = probe_skeleton()
     t["optimized"] = probe_optimized()
     print(json.dumps({"json": t, "coq": render(t)}))
